@@ -456,12 +456,11 @@ func expandGlob(root, pattern string) ([]string, error) {
 	var matches []string
 	ignoreHiddenGlobFn := func(path string, d fs.DirEntry) error {
 		if strings.HasPrefix(path, ".") {
-			if d.IsDir() {
-				// Don't descend into hidden directories
-				return filepath.SkipDir
-			}
-			// A hidden file: leave just this entry out. Returning SkipDir for a file
-			// would skip everything else in the directory that contains it
+			// A hidden file or directory: leave just this entry out. Returning SkipDir here
+			// is not safe: for a file, and for a directory matched by the last segment of
+			// the pattern (e.g. '.spok' matched by '*' or '**/*'), doublestar skips everything
+			// else in the directory that contains it. Anything inside a hidden directory
+			// has a path that starts with a dot too, so it is left out by this same check
 			return nil
 		}
 
